@@ -170,6 +170,7 @@ type phoutCase struct {
 	Buffer   int   `json:"buffer_bytes"`
 	CancelUs int   `json:"cancel_after_last_report_us"` // −1: Gosched only, 0: immediately
 	LateRun  bool  `json:"run_started_after_first_reports"`
+	Pad      int   `json:"pad_bytes,omitempty"` // boundary sweeps: every tag is padded to this length
 	Seed     int64 `json:"seed"`
 }
 
@@ -217,6 +218,9 @@ func phoutOnce(res *vkit.Result, c phoutCase) {
 			for k := 0; k < c.K; k++ {
 				id := uint64(g*1000000 + k + 1)
 				tag := genTag(grng)
+				if c.Pad > 0 {
+					tag = strings.Repeat("p", c.Pad)
+				}
 				if !c.WithID {
 					tag = fmt.Sprintf("%s~%d", tag, id) // make the line identify its report ('~' is not in the tag alphabet)
 				}
@@ -337,6 +341,7 @@ type jsCase struct {
 	Buffer   int   `json:"buffer_bytes"`
 	SlowUs   int   `json:"slow_sink_us"` // >0: direct construction with a slow sink (drops certain)
 	CancelUs int   `json:"cancel_after_last_report_us"`
+	Pad      int   `json:"pad_bytes,omitempty"` // boundary sweeps: fixed-size samples
 	Seed     int64 `json:"seed"`
 }
 
@@ -391,7 +396,7 @@ func jsonlinesOnce(res *vkit.Result, c jsCase) {
 				for i := grng.Intn(4); i > 0; i-- {
 					s.Vals = append(s.Vals, fieldVals[grng.Intn(len(fieldVals))])
 				}
-				if grng.Intn(3) == 0 {
+				if grng.Intn(3) == 0 && c.Pad == 0 {
 					s.M = map[string]string{genTag(grng): genTag(grng)}
 				}
 				mu.Lock()
@@ -859,6 +864,32 @@ func main() {
 		if i < 2 {
 			res.Sample(map[string]any{"layer": "aggregator/phout", "case": c})
 		}
+	}
+	// Boundary sweeps: with fixed-size lines every report count from 1 up to a little more than
+	// two internal buffers' worth is tried, so that the last report lands on every alignment
+	// relative to the 4 KiB minimal buffer (and, with large lines, the 512 KiB default buffer).
+	// Buffering mistakes that only bite when the last line exactly fills or tips a buffer
+	// cannot hide behind random sizes this way.
+	sweep := func(pad, lineLen, bufBytes, boundary int) {
+		from, to := 1, 2*boundary/lineLen+3
+		if boundary > 64<<10 {
+			from, to = boundary/lineLen-2, boundary/lineLen+3
+		}
+		for n := from; n <= to; n++ {
+			phoutOnce(res, phoutCase{G: 1, K: n, Queue: 8192, WithID: true, Buffer: bufBytes, CancelUs: 0, Pad: pad, Seed: int64(n)})
+			jsonlinesOnce(res, jsCase{G: 1, K: n, Queue: 8192, FlushMs: 1000, Buffer: bufBytes, CancelUs: 0, Pad: pad, Seed: int64(n)})
+			res.Count("boundary_sweep_runs", 2)
+		}
+	}
+	sweep(280, 333, 0, 4096)
+	sweep(280, 333, 4096, 4096)
+	sweep(950, 1000, 0, 4096)
+	sweep(30, 80, 8192, 8192)
+	if vkit.Thorough() {
+		sweep(100, 150, 0, 4096)
+		sweep(3900, 3950, 0, 4096)
+		sweep(8000, 8050, 0, 512<<10)
+		sweep(8000, 8050, 64<<10, 64<<10)
 	}
 	jsonlinesOnce(res, jsCase{G: 4, K: 200, Queue: 1, FlushMs: 1, SlowUs: 300, CancelUs: 0, Seed: 21})
 	jsonlinesOnce(res, jsCase{G: 2, K: 10, Queue: 64, FlushMs: 1000, CancelUs: 0, Seed: 22})
